@@ -69,11 +69,13 @@ def harness(tier, seed):
     viol, evals, distinct, samples = [], 0, 0, []
     for r in range(runs):
         n = rng.randint(4, 9)
-        mx = rng.choice([1, 3, 20, 1000, 10 ** 9])
+        mx = rng.choice([1, 3, 20, 1000, 10 ** 9, 5 * 10 ** 9, 10 ** 12])
         m = np.zeros((n, n), np.int64)
         for i in range(n):
             for j in range(i):
-                m[i, j] = m[j, i] = rng.randint(1 if rng.random() < 0.5 else 0, mx)
+                # large instances mix small and large distances (values beyond 2**31 need the int64 matrix)
+                hi = mx if (mx < 10 ** 9 or rng.random() < 0.5) else 999
+                m[i, j] = m[j, i] = rng.randint(1 if rng.random() < 0.5 else 0, hi)
         for i in range(n):       # every row needs a positive off-diagonal entry
             if m[i].max() == 0:
                 j = (i + 1) % n
